@@ -229,16 +229,44 @@ def tlc_shapes(ctx):
     ctx.cov['transitions'] += r.generated
     shapes = []
     lazy = []
+    calls = []
     for line in r.output.splitlines():
         line = line.strip()
         if line.startswith('<<"SHAPE"'):
             shapes.append(json.loads(tlc.parse_value(line)[1]))
         elif line.startswith('<<"LAZY"'):
             lazy.append(json.loads(tlc.parse_value(line)[1]))
+        elif line.startswith('<<"CALL"'):
+            calls.append(json.loads(tlc.parse_value(line)[1]))
     if len(shapes) < 100 or len(lazy) < 1000:
         raise MachineryError('only %d shapes / %d lazy compositions enumerated' % (len(shapes), len(lazy)))
     lazy.sort(key=lambda d: json.dumps(d, sort_keys=True))
-    return shapes, lazy
+    calls.sort(key=lambda d: json.dumps(d, sort_keys=True))
+    if len(calls) < 500:
+        raise MachineryError('only %d function-call cases enumerated' % len(calls))
+    return shapes, lazy, calls
+
+
+# ------------------------------------------------------------------ function composites x call shapes (from TLC)
+CALL_UN = [('neg', 'method'), ('__neg__', 'dunder'), ('midicps', 'builtin'), ('squared', 'method'), ('__abs__', 'dunder'),
+           ('reciprocal', 'builtin'), ('sign', 'method')]
+CALL_BIN = [('__sub__', 'dunder'), ('mod', 'builtin'), ('thresh', 'method'), ('__truediv__', 'dunder'), ('min', 'builtin'),
+            ('__floordiv__', 'dunder'), ('round', 'method'), ('absdif', 'builtin'), ('__mod__', 'dunder'), ('__lt__', 'dunder')]
+CALL_NAR = [('clip', 'method'), ('wrap', 'builtin'), ('fold', 'method'), ('blend', 'method'), ('clip', 'builtin'),
+            ('blend', 'builtin'), ('wrap', 'method'), ('fold', 'builtin')]
+
+
+def gen_calls(call_cases, rnd, thorough):
+    out = []
+    per = 3 if thorough else 1
+    for i, cc in enumerate(call_cases):
+        for j in range(per):
+            v = i * 3 + j
+            out.append(dict(ty='call', tpl=cc['tpl'], sigs=cc['sigs'], calls=cc['calls'],
+                            ops=dict(u=list(CALL_UN[v % len(CALL_UN)]), b=list(CALL_BIN[(v // 2) % len(CALL_BIN)]),
+                                     n=list(CALL_NAR[(v // 3) % len(CALL_NAR)])),
+                            num=rnd.choice(POOL), fl=rnd.randrange(2)))
+    return out
 
 
 # ------------------------------------------------------------------ lazily evaluated compositions (from TLC)
@@ -519,6 +547,12 @@ def judge(ctx, cases, traces):
                     'table %s' % (c['op'], c['form'], kinds, c['how'], c['law'], ', generator' if c['gen'] else '', why,
                                   c['ops'], [(o['v']['s'], [x['s'] for x in o['c']]) for o in t['O'][:8]],
                                   [x['s'] for x in t['tab'][:8]]))
+        elif c['ty'] == 'call':
+            sig = 'callshape:%s:%s' % (c['tpl'], why)
+            obs = dict(O=t['O'], leaves=t['leaves'])
+            what = ('composite %s of functions with parameters %s (operators %s), called with %s: %s; answers %s; base '
+                    'functions alone %s' % (c['tpl'], c['sigs'], c['ops'], c['calls'], why, [o['s'] for o in t['O']],
+                                            [[x['s'] for x in row] for row in t['leaves']]))
         elif c['ty'] == 'range':
             ty = ''.join(a['t'] for a in c['a'])
             sig = 'range:%s:%s:%s' % (c['fn'], ty, why)
@@ -556,12 +590,15 @@ def run(ctx):
     cases, skipped = gen_lift(cat, rnd, thorough)
     for name in skipped:
         ctx.note_drift('operator %s has no argument set in the generator (not exercised)' % name)
-    shapes, lazy = tlc_shapes(ctx)
+    shapes, lazy, call_cases = tlc_shapes(ctx)
     shaped = gen_from_shapes(shapes, rnd, len(SHAPE_OPS) if thorough else 4)
     lazy_cases = gen_lazy(lazy, rnd, thorough)
     ctx.cov['tlc_enumerated_lazy_compositions'] = len(lazy)
     ctx.cov['cases_from_tlc_lazy'] = len(lazy_cases)
     cases += lazy_cases
+    called = gen_calls(call_cases, rnd, thorough)
+    ctx.cov['tlc_enumerated_call_cases'] = len(call_cases)
+    cases += called
     ctx.cov['tlc_enumerated_shapes'] = len(shapes)
     ctx.cov['cases_from_tlc_shapes'] = len(shaped)
     cases += shaped
